@@ -404,6 +404,12 @@ func intsStr(l []int) string {
 // c11Trees: diff of two random id-carrying MPD-like documents, applied with the harness' applier.
 func c11Trees(c *Ctx) {
 	r := c.Rng
+	// attributes that the second document may gain or lose: names that sort before, between and after the fixed ones
+	// (id, lang / id, bandwidth); attributes with a namespace prefix are left out: the generator writes their selector
+	// without the prefix (observed, not pursued: livesim2's own MPDs never change such an attribute)
+	asAttrs, repAttrs := "", ""
+	attrSets := [][2]string{{"", ""}, {` startWithSAP="1"`, ` width="640"`}, {` contentType="video"`, ` audioSamplingRate="48000"`},
+		{` segmentAlignment="true" zzz="1"`, ` height="360" width="640"`}, {` aaa="0"`, ` codecs="avc1"`}, {` zzzz="u"`, ` zz="9" aa="0"`}}
 	mk := func(pt string, periods []int, baseURLs, sVariant, utc int, lang string, roles int) string {
 		var sb strings.Builder
 		fmt.Fprintf(&sb, `<MPD id="m" publishTime="%s" type="dynamic"><PatchLocation ttl="600">x</PatchLocation>`, pt)
@@ -411,7 +417,7 @@ func c11Trees(c *Ctx) {
 			fmt.Fprintf(&sb, `<BaseURL>bu%d/</BaseURL>`, i)
 		}
 		for _, p := range periods {
-			fmt.Fprintf(&sb, `<Period id="P%d" start="PT%dS"><AdaptationSet id="1" lang="%s">`, p, p*60, lang)
+			fmt.Fprintf(&sb, `<Period id="P%d" start="PT%dS"><AdaptationSet id="1" lang="%s"%s>`, p, p*60, lang, asAttrs)
 			for k := 0; k < roles; k++ {
 				fmt.Fprintf(&sb, `<Role schemeIdUri="urn:role:%d" value="main"/>`, k)
 			}
@@ -419,7 +425,7 @@ func c11Trees(c *Ctx) {
 			for k := 0; k < 3+sVariant; k++ {
 				fmt.Fprintf(&sb, `<S d="%d"/>`, 10+k%2)
 			}
-			sb.WriteString(`</SegmentTimeline></SegmentTemplate><Representation id="V1" bandwidth="1"/></AdaptationSet></Period>`)
+			fmt.Fprintf(&sb, `</SegmentTimeline></SegmentTemplate><Representation id="V1" bandwidth="1"%s/></AdaptationSet></Period>`, repAttrs)
 		}
 		for k := 0; k < utc; k++ {
 			fmt.Fprintf(&sb, `<UTCTiming schemeIdUri="urn:utc:%d" value="x"/>`, k)
@@ -449,7 +455,11 @@ func c11Trees(c *Ctx) {
 		if r.Intn(2) == 0 {
 			bb = ba
 		}
+		at := attrSets[r.Pick(0, 0, r.Intn(len(attrSets)))]
+		asAttrs, repAttrs = at[0], at[1]
 		a := mk("2024-01-01T00:00:00Z", pa, ba, r.Intn(3), r.Range(0, 2), "en", r.Range(0, 2))
+		at = attrSets[r.Pick(0, r.Intn(len(attrSets)), r.Intn(len(attrSets)))]
+		asAttrs, repAttrs = at[0], at[1]
 		b := mk("2024-01-01T00:00:10Z", pb, bb, r.Intn(3), r.Range(0, 2), r.PickS("en", "en", "sv"), r.Range(0, 2))
 		doc, _, err := patch.MPDDiff([]byte(a), []byte(b))
 		c.Count("tree-diffs")
